@@ -623,6 +623,20 @@ def run_hms(ctx, tu, corpus):
             if same != text:
                 ctx.violate('format_hms: millisecond input prints a different text than the equivalent seconds', inp,
                             text, f'format_hms({secs!r}) = {same!r}', key='hms-ms')
+        # the same duration as an exact rational (fractions.Fraction: a number the unchanged code rounds and formats like a
+        # float); judged by the same statement-level oracle on the exact value
+        if not ms and i % 7 == 3 and q >= 0:
+            inpf = dict(inp, value=f'Fraction({q.numerator}, {q.denominator})', type='Fraction')
+            try:
+                textf = tu.format_hms(q)
+            except Exception as ex:
+                ctx.violate('format_hms raised (Fraction duration)', inpf, repr(ex), 'a text', key='hms-raised')
+                continue
+            probf, _ = hms_problem(textf, q)
+            ctx.count(('hms-frac', show_num(v)), 'hms:Fraction', near_boundary(q))
+            if probf:
+                ctx.violate('format_hms: ' + probf + ' (Fraction duration)', inpf, textf, f'duration = exactly {frac_str(q)} s',
+                            key='hms-' + ('short' if q < 10 else 'long'))
     # out-of-domain probe, made LAST so that no in-domain call has an out-of-domain call in its history
     try:
         neg0 = tu.format_hms(-0.0)
